@@ -209,6 +209,9 @@ func c13(c *wk.Ctx) {
 	for _, cmd := range cmds {
 		args := [][]byte{[]byte("no:k0"), []byte("ok:k1"), []byte("v"), []byte("w")}
 		judge("nofilter", none, cmd, args, "any")
+		// ... whatever the keys are called: the tool's own checkpoint names are ordinary keys when no key filter is configured
+		judge("nofilter", none, cmd, [][]byte{[]byte("redis-shake-checkpoint"), []byte("ok:k1"), []byte("v"), []byte("w")}, "ckpt-name-first")
+		judge("nofilter", none, cmd, [][]byte{[]byte("a"), []byte("redis-shake-checkpoint-abcd"), []byte("v"), []byte("w")}, "ckpt-name-second")
 	}
 	conf.Options = conf.Configuration{}
 	// ---- stream stage (second observation point of the statement): child processes, real parser + sender
